@@ -5,6 +5,11 @@ import PCV.Model.Wire
 import PCV.Model.DrvUtil
 import PCV.Model.KZG10
 import PCV.Model.DrvMarlin
+import PCV.Model.DrvSonic
+import PCV.Model.DrvIPA
+import PCV.Model.DrvHyrax
+import PCV.Model.DrvLinCode
+import PCV.Model.DrvMLPC
 import PCV.Model.DrvC12
 import PCV.Model.DrvC13
 import PCV.Model.DrvC14
@@ -72,7 +77,8 @@ def handle (p : Nat) (r : Req) : String :=
     if r.op.startsWith "kzg." then handleKZG (p := p) r
     else
       let ext : List (Option (Except String String)) :=
-        [DrvMarlin.handle p r, DrvC12.handle p r, DrvC13.handle p r, DrvC14.handle p r, DrvC15.handle p r,
+        [DrvMarlin.handle p r, DrvSonic.handle p r, DrvIPA.handle p r, DrvHyrax.handle p r,
+         DrvLinCode.handle p r, DrvMLPC.handle p r, DrvC12.handle p r, DrvC13.handle p r, DrvC14.handle p r, DrvC15.handle p r,
          DrvC16.handle p r, DrvC18.handle p r, DrvC19.handle p r]
       match ext.findSome? id with
       | some x => x
